@@ -139,7 +139,7 @@ impl Scenario for Entropy {
         let ne = ENTRY_POINTS.len() as u64;
         p.set("entry", (index % ne) as i64);
         p.set("g", ((index / ne) % 2) as i64);
-        p.set("scheme", ((index / (2 * ne)) % 3) as i64);
+        p.set("scheme", ((index / (2 * ne * MODES.len() as u64)) % 3) as i64);
         let n = if tier == Tier::Quick { 256 } else { 4096 };
         match class {
             "processes" => {
